@@ -149,10 +149,17 @@ def enumerate_faults(ws, rng):
                             F("moddata_len", f"histosys_{fld}_shorter", [ci, si, mi], [["set", base + [fld], m["data"][fld][:-1]]])
                     F("moddata_len", "histosys_both_longer", [ci, si, mi],
                       [["set", base + ["hi_data"], m["data"]["hi_data"] + [2.5]], ["set", base + ["lo_data"], m["data"]["lo_data"] + [1.5]]])
+                    # a 'no-op' variation (hi = lo = nominal) of the wrong length: nothing to see in the values
+                    F("moddata_len", "histosys_nominal_longer", [ci, si, mi],
+                      [["set", base + ["hi_data"], s["data"] + [s["data"][-1]]], ["set", base + ["lo_data"], s["data"] + [s["data"][-1]]]])
                 elif m["type"] in ("shapesys", "staterror"):
                     F("moddata_len", m["type"] + "_longer", [ci, si, mi], [["set", base, m["data"] + [0.7]]])
                     if nb[ci] > 1:
                         F("moddata_len", m["type"] + "_shorter", [ci, si, mi], [["set", base, m["data"][:-1]]])
+                    # all-zero uncertainties are legal values; their number still has to match
+                    F("moddata_len", m["type"] + "_zeros_longer", [ci, si, mi], [["set", base, [0.0] * (nb[ci] + 1)]])
+                    if nb[ci] > 1:
+                        F("moddata_len", m["type"] + "_zeros_shorter", [ci, si, mi], [["set", base, [0.0] * (nb[ci] - 1)]])
     # compensating pairs: the same histosys on the same sample name in two channels, one too long, one too short
     # (a pair of moddata_len faults whose total length is right)
     for ci, c in enumerate(chans):
